@@ -29,6 +29,7 @@ type Parser struct {
 	nextNewline        bool
 	continuationNeeded bool
 	prevPos            int
+	nesting            int // current depth of nested expressions, see MaxNesting.
 	openRanges         int // number of `n:` without right side not (yet) accounted for by an index expression a[n:]
 
 	errors []string
@@ -303,6 +304,9 @@ func (p *Parser) ErrorLine(forPreviousToken bool) (string, int) {
 
 func (p *Parser) peekError(t token.Type) {
 	log.Debugf("peekError: %s", t)
+	if len(p.errors) >= MaxErrors {
+		return
+	}
 	errLine, lineNum := p.ErrorLine(false)
 	msg := fmt.Sprintf("%d: expected next token to be `%s`, got `%s` instead:\n%s",
 		lineNum, token.ByType(t).Literal(), p.peekToken.Literal(), errLine)
@@ -311,12 +315,36 @@ func (p *Parser) peekError(t token.Type) {
 
 func (p *Parser) noPrefixParseFnError(t *token.Token) {
 	log.Debugf("Adding noPrefixParseFnError: %s", t.DebugString())
+	if len(p.errors) >= MaxErrors {
+		return
+	}
 	errLine, lineNum := p.ErrorLine(true)
 	msg := fmt.Sprintf("%d: no prefix parse function for `%s` found:\n%s", lineNum, t.Literal(), errLine)
 	p.errors = append(p.errors, msg)
 }
 
+const (
+	// MaxNesting is how deep expressions (parentheses, brackets, blocks...) can be nested: the parser, the printer
+	// and the evaluator are recursive and input nested millions of levels deep would overflow the Go stack,
+	// which can't be recovered from.
+	MaxNesting = 10_000
+	// MaxErrors bounds the number of errors recorded (each one carries a copy of its source line).
+	MaxErrors = 10
+)
+
+func (p *Parser) addError(msg string) {
+	if len(p.errors) < MaxErrors {
+		p.errors = append(p.errors, msg)
+	}
+}
+
 func (p *Parser) parseExpression(precedence ast.Priority) ast.Node {
+	p.nesting++
+	defer func() { p.nesting-- }()
+	if p.nesting > MaxNesting {
+		p.addError(fmt.Sprintf("expressions nested too deeply (more than %d levels)", MaxNesting))
+		return nil
+	}
 	log.Debugf("parseExpression: %s precedence %s", p.curToken.DebugString(), precedence)
 	if p.curToken.Type() == token.EOL {
 		log.Debugf("parseExpression: EOL")
@@ -340,7 +368,13 @@ func (p *Parser) parseExpression(precedence ast.Priority) ast.Node {
 		p.nextToken()
 		return p.parseLambdaMulti(leftExp)
 	}
+	chain := 0 // each operator applied to the left operand makes the tree one level deeper, without recursion here.
 	for !p.peekTokenIs(token.SEMICOLON) && precedence < p.peekPrecedence() {
+		chain++
+		if p.nesting+chain > MaxNesting {
+			p.addError(fmt.Sprintf("expressions nested too deeply (more than %d levels)", MaxNesting))
+			return nil
+		}
 		t := p.peekToken.Type()
 		infix := p.infixParseFns[t]
 		if infix == nil {
